@@ -105,6 +105,9 @@ class BuiltinMixin:
                 from .values import NUMSTR
                 return SV(TStr, NUMSTR(v.t))
             return SV(TStr, z3.If(v.t >= 0, z3.IntToStr(v.t), z3.Concat(z3.StringVal("-"), z3.IntToStr(-v.t))))
+        if isinstance(v, SV) and v.ty is TNet:
+            from .values import NETSTR
+            return SV(TStr, NETSTR(v.t))      # text of a network: NETPARSE(NETSTR(n)) == n is the only assumed law
         if isinstance(v, SOpt):
             raise Unsupported("str(optional)")
         raise Unsupported(f"str({v!r})")
@@ -167,6 +170,11 @@ class BuiltinMixin:
         if isinstance(v, (list, tuple, frozenset)) and is_concrete(v):
             return frozenset(v)
         if isinstance(v, (list, tuple)):
+            if v and all(isinstance(e, SV) for e in v):
+                # finite explicit set: keep the element terms (issubset / membership expand over them)
+                ety = v[0].ty
+                x = z3.Const(fresh_name("sx"), sort_of(ety))
+                return SSet(ety, z3.Lambda([x], z3.Or(*[x == e.t for e in v])), elems=[e.t for e in v])
             v = self.as_slist(list(v))
         if isinstance(v, SList):
             x = z3.Const(fresh_name("sx"), sort_of(v.ety))
@@ -229,17 +237,30 @@ class BuiltinMixin:
         if isinstance(v, SSet):
             v = self.bi_list([v], {}, st, node)
         if isinstance(v, SList):
+            if isinstance(v.ety, TObj):
+                return self.sorted_perm(v, st, order=False)
             if v.ety not in (TInt, TStr):
                 raise Unsupported("sorted of non-scalar list")
             return self.sorted_perm(v, st)
         raise Unsupported(f"sorted({v!r})")
 
-    def sorted_perm(self, v, st):
-        """sorted(L): fresh list R, ascending, permutation of L (witnessed by a bijection on indices)"""
+    def sorted_perm(self, v, st, order=True):
+        """sorted(L): fresh list R, ascending, permutation of L (witnessed by a bijection on indices);
+        order=False (objects compared by their own __lt__): permutation only"""
         r = fresh(TList(v.ety), "sorted")
         p = z3.Function(fresh_name("perm"), z3.IntSort(), z3.IntSort())
         q = z3.Function(fresh_name("perminv"), z3.IntSort(), z3.IntSort())
         i, j = z3.Int(fresh_name("i")), z3.Int(fresh_name("j"))
+        if not order:
+            st.pc = st.pc + (
+                r.n == v.n,
+                z3.ForAll([i], z3.Implies(z3.And(0 <= i, i < r.n), z3.And(0 <= p(i), p(i) < v.n, q(p(i)) == i, r.a[i] == v.a[p(i)])),
+                          patterns=[r.a[i], p(i)]),
+                z3.ForAll([i], z3.Implies(z3.And(0 <= i, i < v.n), z3.And(0 <= q(i), q(i) < r.n, p(q(i)) == i, r.a[q(i)] == v.a[i])),
+                          patterns=[v.a[i], q(i)]),
+            )
+            self.last_perm = (p, q)
+            return r
         st.pc = st.pc + (
             r.n == v.n,
             # sorting an already ascending list changes nothing (assumed property of sorted/list.sort, audited)
@@ -515,6 +536,8 @@ class BuiltinMixin:
                 return SSet(a.ety, z3.Lambda([x], z3.And(a.chi[x], z3.Not(b.chi[x]))))
             if name == "isdisjoint":
                 return wrap(TBool, z3.ForAll([x], z3.Not(z3.And(a.chi[x], b.chi[x]))))
+            if a.elems is not None:
+                return wrap(TBool, z3.And(*[z3.simplify(b.chi[e]) for e in a.elems]))
             return wrap(TBool, z3.ForAll([x], z3.Implies(a.chi[x], b.chi[x])))
         if name == "copy":
             return S_
@@ -582,6 +605,13 @@ class BuiltinMixin:
             L = self.as_slist(recv, hint) if not isinstance(recv, SList) else recv
             j = z3.Int(fresh_name("m"))
             if name == "append":
+                if getattr(self, "net_cover", False) and (L.ety is TNet or isinstance(L.ety, TObj)):
+                    # fresh list with a ground fact for the new last element and copy axioms triggered from either side
+                    R = fresh(TList(L.ety), "app")
+                    st.pc = st.pc + (R.n == L.n + 1, R.a[L.n] == to_term(args[0]),
+                                     z3.ForAll([j], z3.Implies(z3.And(0 <= j, j < L.n), R.a[j] == L.a[j]), patterns=[L.a[j]]),
+                                     z3.ForAll([j], z3.Implies(z3.And(0 <= j, j < L.n), R.a[j] == L.a[j]), patterns=[R.a[j]]))
+                    return R
                 return SList(L.ety, L.n + 1, z3.Store(L.a, L.n, to_term(args[0])))
             if name == "extend" and isinstance(recv, list) and not recv and isinstance(args[0], SList):
                 return args[0]
@@ -597,6 +627,13 @@ class BuiltinMixin:
             if name == "reverse":
                 return SList(L.ety, L.n, z3.Lambda([j], L.a[L.n - 1 - j]))
             if name == "insert" and isinstance(args[0], int) and args[0] == 0:
+                if L.ety is TNet or isinstance(L.ety, TObj):
+                    # fresh list with shift axioms in both directions (triggers on the known side: e-matching finds k+1 / k-1)
+                    R = fresh(TList(L.ety), "ins0")
+                    st.pc = st.pc + (R.n == L.n + 1, R.a[0] == to_term(args[1]),
+                                     z3.ForAll([j], z3.Implies(z3.And(0 <= j, j < L.n), R.a[j + 1] == L.a[j]), patterns=[L.a[j]]),
+                                     z3.ForAll([j], z3.Implies(z3.And(1 <= j, j <= L.n), R.a[j] == L.a[j - 1]), patterns=[R.a[j]]))
+                    return R
                 return SList(L.ety, L.n + 1, z3.Lambda([j], z3.If(j == 0, to_term(args[1]), L.a[j - 1])))
             if name == "sort" and not kwargs:
                 return self.sorted_perm(L, st)
@@ -633,9 +670,29 @@ class BuiltinMixin:
 
     def net_method(self, net, name, args, kwargs, st, node):
         from .spec import NET_SUB
+        from .values import NET_IN, NET_SUPER, NET_SUB0, NET_SUB1
+        a = z3.BitVec("a!net", BVW)
         if name == "subnet_of":
-            o = args[0]
-            return wrap(TBool, NET_SUB(net.t, to_term(o)))
+            o = to_term(args[0])
+            if getattr(self, "net_cover", False):
+                # a subnet has no address outside its supernet (pyvc.lemmas.net_lemmas: N.sub)
+                st.pc = st.pc + (z3.ForAll([a], z3.Implies(z3.And(NET_SUB(net.t, o), NET_IN(a, net.t)), NET_IN(a, o))),)
+                self.engine_lemmas.add("net.cover")
+            return wrap(TBool, NET_SUB(net.t, o))
+        if name == "supernet" and not args and not kwargs:
+            s_ = NET_SUPER(net.t)
+            # N.super: every address of n is in n.supernet()
+            st.pc = st.pc + (z3.ForAll([a], z3.Implies(NET_IN(a, net.t), NET_IN(a, s_))),)
+            self.engine_lemmas.add("net.cover")
+            return SV(TNet, s_)
+        if name == "subnets" and not args and not kwargs:
+            # N.split: a network shorter than /32 is the union of its two halves; a /32 yields itself
+            h0, h1 = NET_SUB0(net.t), NET_SUB1(net.t)
+            short = Net.plen(net.t) < 32
+            st.pc = st.pc + (z3.ForAll([a], z3.Implies(short, NET_IN(a, net.t) == z3.Or(NET_IN(a, h0), NET_IN(a, h1)))),
+                             z3.Implies(z3.Not(short), z3.And(h0 == net.t, h1 == net.t)))
+            self.engine_lemmas.add("net.cover")
+            return [SV(TNet, h0), SV(TNet, h1)]
         raise Unsupported(f"IPv4Network.{name}")
 
     # ------------------------------------------------------------------ itertools / ipaddress models (assumed, audited)
